@@ -167,6 +167,7 @@ let () =
             match f.(0) with
             | "rp" -> rp_case f
             | "cv" -> cv_case f
+            | "mqx" -> Explore.mqx_case f
             | x when String.length x > 5 && String.sub x 0 5 = "spec:" ->
                 spec_case (String.sub x 5 (String.length x - 5)) f
             | x -> "UNKNOWN-EXECUTOR " ^ x
